@@ -82,15 +82,19 @@ TLoadScan == /\ IsEvent("LoadFreelistScan")
              /\ UNCHANGED <<readers, tree, flp, flc, vhwm, cur, w, fs, opt>>
 
 \* ------------------------------------------------------------------ readers
+\* (A database opened read-only never has a writer: nothing is ever released there and the reader
+\*  registry - which may not even exist before the free list is loaded lazily - is irrelevant.)
 TBeginRead == /\ IsEvent("BeginRead")
               /\ Expect(E.txid = cur, <<"reader does not start on the newest written meta", cur>>)
-              /\ readers' = Inc(readers, E.txid)
-              /\ Expect(E.nofl \/ SameBag(readers', E.readers), "reader not registered with the free list")
+              /\ IF opt.readOnly THEN readers' = readers
+                 ELSE /\ readers' = Inc(readers, E.txid)
+                      /\ Expect(~E.nofl /\ SameBag(readers', E.readers), "reader not registered with the free list")
               /\ UNCHANGED <<free, pend, tree, flp, flc, vhwm, cur, w, fs, opt>>
 TEndRead == /\ IsEvent("EndRead")
-            /\ Expect(E.txid \in RTx(readers), "EndRead of an unknown reader")
-            /\ readers' = Dec(readers, E.txid)
-            /\ Expect(E.nofl \/ SameBag(readers', E.readers), "reader not removed from the free list")
+            /\ IF opt.readOnly THEN readers' = readers
+               ELSE /\ Expect(E.txid \in RTx(readers), "EndRead of an unknown reader")
+                    /\ readers' = Dec(readers, E.txid)
+                    /\ Expect(~E.nofl /\ SameBag(readers', E.readers), "reader not removed from the free list")
             /\ UNCHANGED <<free, pend, tree, flp, flc, vhwm, cur, w, fs, opt>>
 
 \* ------------------------------------------------------------------ writer
